@@ -43,6 +43,8 @@ def parse_probe(ans):
     """impl/model answer of probe|fprobe -> dict(kind=ok|null|crash|timeout|oom|ub|diverge, ...)"""
     if ans.startswith("ok | "):
         parts = ans.split(" | ")
+        if len(parts) != 4 or len(parts[1].split()) != 2:
+            return dict(kind="garbled", raw=ans[:200])
         cnt, nr = parts[1].split()
         k, more, nxt = names_field(parts[2])
         if parts[3] == "=":
